@@ -134,23 +134,24 @@ var stallDurations = []time.Duration{time.Millisecond, 20 * time.Millisecond, 30
 
 // Sim is one simulated run.
 type Sim struct {
-	mu      sync.Mutex
-	Tape    *Tape
-	Cfg     Config
-	Start   time.Time
-	tasks   map[int64]*Task
-	all     []*Task
-	byID    map[string]*Task
-	current *Task
-	last    *Task
-	wake    chan struct{}
-	rootG   int64 // the scheduler goroutine: never parks, runs instrumented code natively
-	waiters map[any][]*Task
+	mu             sync.Mutex
+	Tape           *Tape
+	Cfg            Config
+	Start          time.Time
+	tasks          map[int64]*Task
+	all            []*Task
+	byID           map[string]*Task
+	current        *Task
+	last           *Task
+	wake           chan struct{}
+	rootG          int64 // the scheduler goroutine: never parks, runs instrumented code natively
+	waiters        map[any][]*Task
 	pendingWriters map[any]int
-	events  []*Event
-	evSeq   int
-	libSeq  map[int]int
-	dying   bool
+	libLocks       map[uintptr]*sync.Mutex
+	events         []*Event
+	evSeq          int
+	libSeq         map[int]int
+	dying          bool
 
 	Step       int
 	Trace      []TraceEntry
@@ -267,7 +268,7 @@ func New(tape *Tape, cfg Config) *Sim {
 	s := &Sim{
 		Tape: tape, Cfg: cfg, Start: time.Now(),
 		tasks: map[int64]*Task{}, byID: map[string]*Task{},
-		wake: make(chan struct{}, 1), waiters: map[any][]*Task{}, pendingWriters: map[any]int{},
+		wake: make(chan struct{}, 1), waiters: map[any][]*Task{}, pendingWriters: map[any]int{}, libLocks: map[uintptr]*sync.Mutex{},
 		libSeq: map[int]int{}, Counters: map[string]int{},
 		SitesHit: map[int]int{}, Switches: map[[2]int]int{},
 		memState: map[uintptr]*memLoc{},
